@@ -26,7 +26,8 @@ PROPS = {
         harness='verify',
         rule=('cases: byte strings decoded into (document, root kind, max_depth): encodings of generated trees, 1-4 structural/byte '
               'mutations of them, nesting chains around the depth limits, raw bytes (libFuzzer, shipped corpora), and every sequence of '
-              '<= L chunks over a 27-chunk token alphabet (x 3 delimiter wrappings x 2 root kinds x 5 depths). A verdict is non-trivial '
+              '<= L chunks over a 27-chunk token alphabet (x 3 delimiter wrappings x 2 root kinds x 5 depths), plus a trailing-bytes sweep '
+              '(4 well-formed documents + 55 tail lengths around 2^7/2^8/2^15/2^16 x 6 fills). A verdict is non-trivial '
               'iff init accepted the buffer (size >= 2, first/last byte right), i.e. the token loop decided it; distinct = distinct '
               'hash of (bytes, max_depth, root kind), set capped at 2^20 per process (conservative).'),
         tiers=dict(
@@ -95,7 +96,7 @@ PROPS['C14'] = dict(
     rule=('cases: valid documents (generated trees of all seven types incl. names/strings with 0x00, quotes, %; nesting chains; shipped valid corpus files) '
           'rendered by to_string (capacity = size reported by the NULL query) and by print (fd 1 captured in a memfd), both compared byte for byte with '
           'the reference renderer; plus every tree with <= N nodes over {object, array, int, bool} (all combinations of empty/non-empty containers as '
-          'first/middle/last sibling). Non-trivial iff the tree has >= 2 siblings at some level and >= 1 nested container; distinct = hash(document).'),
+          'first/middle/last sibling), plus an integer sweep q*10^k+r (k=1..18, q around every power of two, r with/without leading zeros). Non-trivial iff the tree has >= 2 siblings at some level and >= 1 nested container; distinct = hash(document).'),
     tiers=dict(
         quick=[enum(shards=4, variant='san', env={'VH_ENUM_N': '6'}), rc(80000, shards=6, max_size=250, corpus=['valid_objects']),
                fuzz(150000, shards=6, corpus=['valid_objects'])],
